@@ -108,19 +108,22 @@ def run(run, replay=None):
         if len(run.samples) < 4:
             run.sample({'origin': origin, 'file_bytes': len(data), 'cuts': len(data) + 1,
                         'intact_records': len(intact[0]), 'head': data[:80].decode('latin-1')})
-    can = []
-    pool = [c for c in cases if c['prefixok']]
-    for k, c in enumerate(rng.sample(pool, min(8, len(pool)))):
-        z = copy.deepcopy(c)
-        z['canary_of'] = z['id']
-        z['id'] = 'canary-%d' % k
-        if k % 2:
-            z['end'] = 'other:AssertionError'
-        else:
-            z['prefixok'] = False
-            z['recs'] = [{'id': 'diffx', 'level': 0, 'type': 'diffx', 'line': 0, 'opts': [], 'kind': 'none',
-                          'text': [], 'raw': [], 'meta': {'t': 'null', 's': [], 'n': 0, 'neg': False, 'items': []}}]
-        can.append(z)
+    def _mk_canaries():
+        can = []
+        pool = [c for c in cases if c['prefixok']]
+        for k, c in enumerate(rng.sample(pool, min(8, len(pool)))):
+            z = copy.deepcopy(c)
+            z['canary_of'] = z['id']
+            z['id'] = 'canary-%d' % k
+            if k % 2:
+                z['end'] = 'other:AssertionError'
+            else:
+                z['prefixok'] = False
+                z['recs'] = [{'id': 'diffx', 'level': 0, 'type': 'diffx', 'line': 0, 'opts': [], 'kind': 'none',
+                              'text': [], 'raw': [], 'meta': {'t': 'null', 's': [], 'n': 0, 'neg': False, 'items': []}}]
+            can.append(z)
+        return can
+    can = run.tolerant(_mk_canaries)
     run.judge('Trace_Reader', cases + can, cat.tables(), canary_ids=[c['id'] for c in can], describe=describe)
     run.notes['truncation_points'] = ncuts
     run.notes['base_files'] = len(bases)
